@@ -2,8 +2,8 @@
    Rank-level model of calculate_possible_course_room_sizes (Rooms18.listed: the pushes of the double loop with its break, on course
    sizes s by rank and rooms r sorted descending).  The theorems use only the descending order of the ROOMS and rank-wise fit, so they
    hold for every order the unstable sort may choose among courses of equal size. *)
-From Coq Require Import List Arith Lia Bool.
-Require Import Rooms18 RoomsModel.
+From Coq Require Import List Arith Lia Bool Permutation.
+Require Import Rooms18 RoomsModel RoomsCourse.
 Import ListNotations.
 Open Scope nat_scope.
 
@@ -20,6 +20,25 @@ Theorem C18_nonempty : forall (s r : list nat),
   (forall i, i < length s -> (i < length r -> nth i s 0 <= nth i r 0) /\ (length r <= i -> nth i s 0 = 0)) ->
   forall k, k < length s -> 0 < nth k s 0 -> listed s r k <> [].
 Proof. intros s r H k. apply (listed_nonempty s r H k). Qed.
+
+(* the same at COURSE level, through the two sorts of calculate_possible_course_room_sizes (RoomsModel.possible is compared exactly with
+   the implementation's lists): whenever the sizes can be housed (the executable housed_desc), every size v listed for course c is at
+   least c's size, and some allocation of pairwise distinct rooms -- positions in the descending room list, a permutation of the
+   given rooms -- gives c a room of size v and every course of positive size a room that is large enough *)
+Theorem C18_course_level : forall sizes rooms, housed_desc sizes rooms = true ->
+  forall c v, c < length sizes -> In v (nth c (possible sizes rooms) []) ->
+  nth c sizes 0 <= v /\
+  exists alloc : nat -> nat,
+    (forall a b, a < length sizes -> b < length sizes -> alloc a = alloc b -> a = b) /\
+    alloc c < length (sort_nat_desc rooms) /\ nth (alloc c) (sort_nat_desc rooms) 0 = v /\
+    (forall a, a < length sizes -> 0 < nth a sizes 0 ->
+       alloc a < length (sort_nat_desc rooms) /\ nth a sizes 0 <= nth (alloc a) (sort_nat_desc rooms) 0).
+Proof. exact possible_usable. Qed.
+Theorem C18_rooms_permuted : forall rooms, Permutation (sort_nat_desc rooms) rooms.
+Proof. exact sort_nat_desc_perm. Qed.
+Theorem C18_course_nonempty : forall sizes rooms, housed_desc sizes rooms = true ->
+  forall c, c < length sizes -> 0 < nth c sizes 0 -> nth c (possible sizes rooms) [] <> [].
+Proof. exact possible_nonempty. Qed.
 
 (* room kinds: a listed kind name always belongs to a kind with positive quantity whose capacity is one of the listed sizes *)
 Theorem C18_kinds : forall ks sizes c n,
@@ -41,7 +60,10 @@ Qed.
 Example C18_example : dedup (listed [5;3;0] [6;5;3] 0) = [6; 5] /\ dedup (listed [5;3;0] [6;5;3] 1) = [6; 5; 3] /\ listed [5;3;0] [6;5;3] 2 <> [].
 Proof. vm_compute. repeat split; discriminate. Qed.
 
-Check C18. Check C18_nonempty. Check C18_kinds.
+Check C18. Check C18_nonempty. Check C18_kinds. Check C18_course_level. Check C18_rooms_permuted. Check C18_course_nonempty.
 Print Assumptions C18.
 Print Assumptions C18_nonempty.
 Print Assumptions C18_kinds.
+Print Assumptions C18_course_level.
+Print Assumptions C18_rooms_permuted.
+Print Assumptions C18_course_nonempty.
